@@ -108,7 +108,7 @@ def check_params(sc, params, solve):
     if solve:
         for key in KEYS:
             g = d[key]
-            cpu = 3.0 + 0.05 * len(g["players"])
+            cpu = 6.0 + 0.1 * len(g["players"])
             f, k, secs = solve_entry(key, g, cpu)
             if f:
                 findings.append(f[:3] + ("parameters %r: %s" % (params, f[3]),))
